@@ -57,6 +57,7 @@ pub const MUTATORS: &[&str] = &[
     "truncate",
     "doctype-after-root",
     "entity-recursion",
+    "lt-entity-in-attr",
     "unterminated-comment",
     "pe-reference",
     "external-entity-in-attr",
@@ -363,6 +364,43 @@ fn apply(text: &str, name: &str, g: &mut Genes) -> Option<String> {
                 let k = cands[g.pick(cands.len())];
                 Some(format!("{}&rec;{}", &t[..k], &t[k..]))
             }
+        }
+        "lt-entity-in-attr" => {
+            // WFC No < in Attribute Values through an entity whose replacement text is markup that is fine in
+            // content; the same entity may also be referenced in content before and/or after the attribute
+            let (rs, _) = root_span(text)?;
+            let decl = ["<!ENTITY m \"<i>x</i>\">", "<!ENTITY m \"<i/>\">", "<!ENTITY m0 \"<i>y</i>\"><!ENTITY m \"a&m0;b\">"][g.pick(3)];
+            let t = if text.contains("<!DOCTYPE") {
+                let i = text.find('[')? + 1;
+                format!("{}{}{}", &text[..i], decl, &text[i..])
+            } else {
+                format!("{}<!DOCTYPE a [{}]>{}", &text[..rs], decl, &text[rs..])
+            };
+            let (rs2, re2) = root_span(&t)?;
+            // start tags inside the root span
+            let tags: Vec<usize> = occurrences(&t[rs2..re2], "<").into_iter().map(|i| rs2 + i).filter(|&i| t[i + 1..].chars().next().map(|c| c.is_alphabetic() || c == '_').unwrap_or(false)).collect();
+            if tags.is_empty() {
+                return None;
+            }
+            let tag = tags[g.pick(tags.len())];
+            let te = t[tag + 1..].find(|c: char| c == '>' || c == '/' || c.is_whitespace())? + tag + 1;
+            let mut out = format!("{} zz=\"&m;\"{}", &t[..te], &t[te..]);
+            // content uses: positions right after a '>' inside the root element
+            let uses = g.pick(4); // 0 none, 1 before, 2 after, 3 both
+            let (rs3, re3) = root_span(&out)?;
+            let spots: Vec<usize> = occurrences(&out[rs3..re3], ">").into_iter().map(|i| rs3 + i + 1).filter(|&i| i < re3).collect();
+            let attr_at = out.find(" zz=\"&m;\"")?;
+            let before: Vec<usize> = spots.iter().copied().filter(|&i| i < attr_at).collect();
+            let after: Vec<usize> = spots.iter().copied().filter(|&i| i > attr_at + 10).collect();
+            if (uses == 2 || uses == 3) && !after.is_empty() {
+                let k = after[g.pick(after.len())];
+                out = format!("{}&m;{}", &out[..k], &out[k..]);
+            }
+            if (uses == 1 || uses == 3) && !before.is_empty() {
+                let k = before[g.pick(before.len())];
+                out = format!("{}&m;{}", &out[..k], &out[k..]);
+            }
+            Some(out)
         }
         "unterminated-comment" => {
             let i = pick_occ(text, "-->", g)?;
